@@ -25,6 +25,7 @@ inductive Val
   | int (i : Int)
   | names (l : List Str)
   | parts (l : List NameParts)
+  | part (p : NameParts)
   | opaque (tag : Nat)
 deriving DecidableEq, Repr, Inhabited
 
